@@ -414,6 +414,11 @@ func entryGuard(an *ir.Analysis, h *ssa.BasicBlock, start, bound *ir.Term) bool 
 			if p.To == h && (p.From == nil || !lb[p.From]) {
 				n++
 				if polarity(p, atom) <= 0 {
+					// 0 < bound also follows from bound != 0 when the bound cannot be negative (a length)
+					if k, isK := start.IntConst(); isK && k == 0 && nonNegTerm(bound) &&
+						polarity(p, &ir.Term{Op: "bin", Aux: "==", Args: sorted2(ir.Const("0"), bound)}) < 0 {
+						continue
+					}
 					return false
 				}
 			}
